@@ -150,6 +150,9 @@ func execute(t *testing.T, h Harness, job *Job, plan, sched *simrt.Source, keepL
 	if ph, ok := run.(interface{ OnPanic(v interface{}) bool }); ok {
 		cfg.OnPanic = ph.OnPanic
 	}
+	if cr, ok := run.(interface{ CPUs() int }); ok {
+		cfg.CPUs = cr.CPUs()
+	}
 	if sr, ok := run.(SeqRun); ok {
 		// Sequential code under test: no goroutines to schedule; the run draws
 		// its fault choices from the schedule source directly.
